@@ -28,10 +28,11 @@ REGIONS = [
          props=["C05", "C06"]),
     dict(name="PollLock", modules=[I + "poll"], fields=["_poll_descriptors"], locks=["_lock"],
          lockfree={"_run_cancel_fn": ("load",)},
-         props=["C08", "C12"]),
+         # a registration lost to an unlocked read-modify-write of the list is a future that is never polled again (C03)
+         props=["C08", "C12", "C03"]),
     dict(name="ThrLock", modules=[I + "throttle"], fields=["_to_submit"], locks=["_lock"],
          lockfree={"_block_until_ready": ("load",)},
-         props=["C07", "C06", "C20", "C12"]),
+         props=["C07", "C06", "C20", "C12", "C03"]),
     dict(name="AtomicLock", modules=[I + "throttle"], fields=["value"], locks=["lock"], kinds=("store",),
          props=["C07"]),
     dict(name="JobsLock", modules=[I + "timeout"], fields=["_jobs"], locks=["_jobs_lock"], holds=["_partition_jobs"],
@@ -230,6 +231,40 @@ def _foreign_under_futlock(repo):
                  set(writers) <= {"common._Future.__init__", "common._Future.cancel"}, ["C04", "C02"], {"writers": writers})]
 
 
+def _metric_kinds(repo):
+    """C20 `counters match events`: a Counter only ever goes up.  The kinds are read from the metric table of the prometheus backend
+    (NAME = Counter(...) / Gauge(...)); every syntactic `metrics.<COUNTER>...dec(` in the library, and every `.dec()` on a record_done
+    parameter bound to a counter child, is a violation."""
+    import ast
+    mi = repo.modules.get(I + "metrics.prometheus")
+    kinds = {}
+    if mi is not None:
+        for n in ast.walk(mi.tree if hasattr(mi, "tree") else mi.node):
+            if isinstance(n, ast.Assign) and isinstance(n.value, ast.Call) and isinstance(n.value.func, ast.Name) and n.value.func.id in ("Counter", "Gauge"):
+                for t in n.targets:
+                    if isinstance(t, ast.Name):
+                        kinds[t.id] = n.value.func.id
+    bad, seen = [], 0
+    # parameters of record_done that carry counter children (bound by track_future's partial)
+    counter_params = {"time", "cancelled", "failed"}
+    for qn, f in sorted(repo.funcs.items()):
+        if not qn.startswith(I):
+            continue
+        for n in ast.walk(f.node):
+            if isinstance(n, ast.Call) and isinstance(n.func, ast.Attribute) and n.func.attr in ("inc", "dec"):
+                src = S._src(n.func.value)
+                names = [k for k in kinds if ("metrics.%s." % k) in src + "."]
+                if qn.endswith("metrics.record_done") and isinstance(n.func.value, ast.Name) and n.func.value.id in counter_params:
+                    names = ["<counter child %s>" % n.func.value.id]
+                    kinds[names[0]] = "Counter"
+                for k in names:
+                    seen += 1
+                    if kinds[k] == "Counter" and n.func.attr != "inc":
+                        bad.append("%s:%d %s.%s()" % (S.short(qn), n.lineno, k, n.func.attr))
+    return [S.ob("counters only ever go up: no .dec() on a Counter metric anywhere in the library (kinds read from the prometheus metric table)", "FR",
+                 bool(kinds) and seen > 0 and not bad, ["C20"], {"decrements of counters": bad, "metric kinds found": len(kinds), "update sites seen": seen})]
+
+
 REPLAYS = [("C04", "static:lock-order # LL", "replay/c04_cancel_on_shutdown_abba.py"), ("C04", "static:lock-order # OP-2", "replay/c04_nested_submit_sync.py"),
            ("C10", "static:lock-order", "replay/c04_cancel_on_shutdown_abba.py"), ("C11", "static:lock-order", "replay/c04_cancel_on_shutdown_abba.py"),
            ("C07", "SW: the worker's wake-up event", "replay/c07_blocked_submit_wakeup.py"), ("C07", "followed by a wake-up of a blocked submit()", "replay/c07_blocked_submit_wakeup.py"),
@@ -240,13 +275,14 @@ REPLAYS = [("C04", "static:lock-order # LL", "replay/c04_cancel_on_shutdown_abba
 STATIC = [
     dict(name="event-list-append-only", props=["C12", "C11", "C03"], run=_events_list),
     dict(name="future-handout", props=["C02", "C03"], run=_future_handout),
+    dict(name="metric-kinds", props=["C20"], run=_metric_kinds),
     dict(name="regions", props=sorted({p for r in REGIONS for p in r["props"]}), run=_regions),
     # a terminal transition outside the future's lock can slip between the done() test and the append of add_done_callback: the callback is
     # lost, and with it every future derived from this one (map / flat_map chains, hence f_apply, f_zip, f_and / f_or, f_traverse)
     dict(name="future-state-transitions", props=["C02", "C13", "C05", "C06", "C18", "C01", "C03", "C14", "C15", "C16"], run=_stdlib_transitions_under_lock),
     dict(name="foreign-code-under-future-lock", props=["C04", "C02"], run=_foreign_under_futlock),
-    dict(name="wake-orders", props=["C03", "C05", "C07", "C08", "C09", "C11"], run=_wake_orders),
-    dict(name="writer-sets", props=["C13", "C01", "C02", "C06", "C07", "C08", "C14", "C15"], run=_writer_sets),
+    dict(name="wake-orders", props=["C03", "C05", "C06", "C07", "C08", "C09", "C11"], run=_wake_orders),
+    dict(name="writer-sets", props=["C13", "C01", "C02", "C03", "C06", "C07", "C08", "C14", "C15"], run=_writer_sets),
 ]
 UNITS = []
 
